@@ -11,6 +11,7 @@ import (
 	"io"
 	"net/http"
 	"net/url"
+	"os"
 	"strings"
 	"time"
 
@@ -517,6 +518,9 @@ func chunkUnits(prefix string, scs []*Scenario, n int) []Unit {
 			tot := &Stats{BoundCompleted: 1 << 30, outcomes: map[string]int{}}
 			for _, sc := range part {
 				st := Explore(sc, dl, false)
+				if os.Getenv("VERIF_DEBUG_HEAVY") != "" && st.Executions+st.Pruned > 1500 {
+					fmt.Fprintf(os.Stderr, "HEAVY %d+%d bound=%d %s\n", st.Executions, st.Pruned, sc.Bound, sc.Name)
+				}
 				tot.Executions += st.Executions
 				tot.Points += st.Points
 				tot.Steps += st.Steps
